@@ -107,6 +107,8 @@ type MetaCDC struct {
 		sync.RWMutex
 		data map[string]*meta.TaskInfo
 	}
+	// positionLock makes sure that the positions of a task aren't written while or after the task is deleted
+	positionLock sync.RWMutex
 	// factoryCreator FactoryCreator
 	replicateEntityMap struct {
 		sync.RWMutex
@@ -647,6 +649,21 @@ func (e *MetaCDC) Create(req *request.CreateRequest) (resp *request.CreateRespon
 	return &request.CreateResponse{TaskID: info.TaskID}, nil
 }
 
+// updateTaskPosition runs the position update of a task, and skips it if the task has been deleted,
+// because the replication, which updates the positions, is stopped after the task meta has been deleted.
+func (e *MetaCDC) updateTaskPosition(taskID string, update func(writeCallback *WriteCallback) error) error {
+	e.positionLock.RLock()
+	defer e.positionLock.RUnlock()
+	e.cdcTasks.RLock()
+	_, ok := e.cdcTasks.data[taskID]
+	e.cdcTasks.RUnlock()
+	if !ok {
+		log.Info("skip to update the position of the deleted task", zap.String("task_id", taskID))
+		return nil
+	}
+	return update(NewWriteCallback(e.metaStoreFactory, e.rootPath, taskID))
+}
+
 func (e *MetaCDC) getRPCChannelName(channelInfo model.ChannelInfo) string {
 	if channelInfo.Name != "" {
 		return channelInfo.Name
@@ -1116,7 +1133,6 @@ func (e *MetaCDC) startReplicateAPIEvent(replicateCtx context.Context, entity *R
 					return
 				}
 				if replicateAPIEvent.EventType == api.ReplicateCreateCollection {
-					writeCallback := NewWriteCallback(e.metaStoreFactory, e.rootPath, taskID)
 					collectionID := replicateAPIEvent.CollectionInfo.ID
 					collectionName := replicateAPIEvent.CollectionInfo.Schema.Name
 					msgTime, _ := tsoutil.ParseHybridTs(replicateAPIEvent.CollectionInfo.CreateTime)
@@ -1128,8 +1144,10 @@ func (e *MetaCDC) startReplicateAPIEvent(replicateCtx context.Context, entity *R
 								Data: startPosition.Data,
 							},
 						}
-						err := writeCallback.UpdateTaskCollectionPosition(collectionID, collectionName, funcutil.ToPhysicalChannel(startPosition.Key),
-							metaPosition, metaPosition, nil)
+						err := e.updateTaskPosition(taskID, func(writeCallback *WriteCallback) error {
+							return writeCallback.UpdateTaskCollectionPosition(collectionID, collectionName, funcutil.ToPhysicalChannel(startPosition.Key),
+								metaPosition, metaPosition, nil)
+						})
 						if err != nil {
 							log.Warn("fail to update the collection start position",
 								zap.String("name", collectionName),
@@ -1150,9 +1168,10 @@ func (e *MetaCDC) startReplicateAPIEvent(replicateCtx context.Context, entity *R
 					return
 				}
 				if replicateAPIEvent.EventType == api.ReplicateDropCollection {
-					writeCallback := NewWriteCallback(e.metaStoreFactory, e.rootPath, taskID)
 					collectionID := replicateAPIEvent.CollectionInfo.ID
-					err := writeCallback.UpdateDropStateCollectionPosition(collectionID)
+					err := e.updateTaskPosition(taskID, func(writeCallback *WriteCallback) error {
+						return writeCallback.UpdateDropStateCollectionPosition(collectionID)
+					})
 					if err != nil {
 						log.Warn("fail to update the collection position",
 							zap.String("name", replicateAPIEvent.CollectionInfo.Schema.Name),
@@ -1259,14 +1278,15 @@ func (e *MetaCDC) startReplicateDMLMsg(replicateCtx context.Context, entity *Rep
 				}
 			}
 			for _, updatePositionInfo := range positionInfos {
-				writeCallback := NewWriteCallback(e.metaStoreFactory, e.rootPath, updatePositionInfo.taskID)
-				err := writeCallback.UpdateTaskCollectionPosition(
-					updatePositionInfo.collectionID,
-					updatePositionInfo.collectionName,
-					updatePositionInfo.pChannelName,
-					updatePositionInfo.position,
-					updatePositionInfo.opPosition,
-					updatePositionInfo.targetPosition)
+				err := e.updateTaskPosition(updatePositionInfo.taskID, func(writeCallback *WriteCallback) error {
+					return writeCallback.UpdateTaskCollectionPosition(
+						updatePositionInfo.collectionID,
+						updatePositionInfo.collectionName,
+						updatePositionInfo.pChannelName,
+						updatePositionInfo.position,
+						updatePositionInfo.opPosition,
+						updatePositionInfo.targetPosition)
+				})
 				if err != nil {
 					log.Warn("fail to update the collection position", zap.Any("packs", replicateMsgs), zap.Error(err))
 					_ = e.pauseTaskWithReason(updatePositionInfo.taskID, "fail to update task position, err:"+err.Error(), []meta.TaskState{})
@@ -1416,9 +1436,10 @@ func (e *MetaCDC) getChannelReader(info *meta.TaskInfo, replicateEntity *Replica
 				Data: positionBytes,
 			},
 		}
-		writeCallback := NewWriteCallback(e.metaStoreFactory, e.rootPath, info.TaskID)
-		err = writeCallback.UpdateTaskCollectionPosition(model.ReplicateCollectionID, model.ReplicateCollectionName, channelName,
-			metaPosition, metaPosition, nil)
+		err = e.updateTaskPosition(info.TaskID, func(writeCallback *WriteCallback) error {
+			return writeCallback.UpdateTaskCollectionPosition(model.ReplicateCollectionID, model.ReplicateCollectionName, channelName,
+				metaPosition, metaPosition, nil)
+		})
 		if err != nil {
 			log.Warn("fail to update the collection position", zap.Any("pack", pack), zap.Error(err))
 			_ = e.pauseTaskWithReason(info.TaskID, "fail to update task position, err:"+err.Error(), []meta.TaskState{})
@@ -1512,15 +1533,19 @@ func (e *MetaCDC) delete(taskID string) error {
 	var err error
 	var info *meta.TaskInfo
 
+	// the task is removed from the task map together with its meta, see updateTaskPosition
+	e.positionLock.Lock()
 	info, err = store.DeleteTask(e.metaStoreFactory, taskID)
 	if err != nil {
+		e.positionLock.Unlock()
 		return errors.WithMessage(err, "fail to delete the task meta, task_id: "+taskID)
 	}
-	uKey := getTaskUniqueIDFromInfo(info)
-	collectionNames := GetCollectionNamesFromTaskInfo(info)
 	e.cdcTasks.Lock()
 	delete(e.cdcTasks.data, taskID)
 	e.cdcTasks.Unlock()
+	e.positionLock.Unlock()
+	uKey := getTaskUniqueIDFromInfo(info)
+	collectionNames := GetCollectionNamesFromTaskInfo(info)
 
 	e.collectionNames.Lock()
 	e.collectionNames.excludeData[uKey] = removeOnce(e.collectionNames.excludeData[uKey], info.ExcludeCollections)
